@@ -138,6 +138,20 @@ def closed_form_search(ctx, nmax):
                  'how': "list(%s(base_step=..., step_ratio=..., num_steps=..., step_nom=1.0, offset=..., check_num_steps=False, use_exact_steps=False)(1.0))" % cls.__name__})
             if found >= 3:
                 return
+    # default count against the independent closed form: max((n + order - 1) // divisor, 1) + num_extrap with divisor 2 for central and
+    # multicomplex (their rules advance by two orders per term), 4 for complex once n > 1 or order >= 4 (else 2), 1 for the one-sided methods
+    for method, n, order in itertools.product(['central', 'central2', 'forward', 'backward', 'complex', 'multicomplex'], range(1, 11), range(1, 11)):
+        div = {'central': 2, 'central2': 2, 'multicomplex': 2, 'complex': 4 if (n > 1 or order >= 4) else 2}.get(method, 1)
+        for extrap in (0, 3):
+            for cls in (MinStepGenerator, MaxStepGenerator):
+                g = cls(num_extrap=extrap) if cls is MinStepGenerator else cls(num_steps=None, num_extrap=extrap)
+                got = len(list(g(np.asarray(0.5), method, n, order)))
+                want = max((n + order - 1) // div, 1) + extrap
+                ctx.count(1)
+                if got != want:
+                    ctx.violation('default-count:%s' % method, '%s(num_extrap=%d)(0.5, %r, n=%d, order=%d) yields %d steps, the documented default count is %d' % (
+                        cls.__name__, extrap, method, n, order, got, want), {'generator': cls.__name__, 'num_extrap': extrap, 'method': method, 'n': n, 'order': order, 'observed': got, 'documented': want})
+                    return
     # defaults: ratio, count >= rule demand (the real classes, default generators)
     for method, n, order in itertools.product(['central', 'forward', 'backward', 'complex', 'multicomplex'], range(1, 11), range(1, 11)):
         if method == 'multicomplex' and n > 2:
